@@ -124,3 +124,19 @@ def fix_sibling_ids(spec, auto=lambda label: ("auto", label)):
 
     rec(spec)
     return spec
+
+
+def localize_ids(spec, labels):
+    """Explicit ids become a function of (id, label), so that one data_id is
+    never shared by nodes holding different data (in place; returns spec)."""
+
+    def rec(nodes):
+        for n in nodes:
+            if len(n) > 2 and n[2] and n[2].get("id") is not None:
+                i = n[2]["id"]
+                li = labels.index(n[0]) if n[0] in labels else 99
+                n[2]["id"] = f"{i}:{n[0]}" if isinstance(i, str) else i * 100 + li
+            rec(n[1])
+
+    rec(spec)
+    return spec
